@@ -30,9 +30,11 @@ def population(iw, rng):
     """returns history lines creating the population and the list of handles per kind"""
     L = ['reset']
     for cls in (0, 1):
-        for n, ln in (('a', 5), ('b', 5), ('ab', 9), ('a*', 5), ('B', 5)):
+        for n, ln in (('a', 5), ('b', 5), ('ab', 9), ('a*', 5), ('B', 5), ('d2', 5), ('d9', 5), ('d10', 5), ('d2a', 5), ('d10*', 5),
+                      ('x1y2', 5), ('-', 5), ('_a', 5), ('A-1', 5), ('10', 5), ('9', 5)):
             L.append('mk.dom\t%d\t%s\t%d\t-\t-' % (cls, n, ln))
-    L.append('mk.dom\t3\ta\t9\t-\t-')          # same name, other length, sibling class
+    L.append('mk.dom\t3\ta\t9\t-\t-')
+    L.append('mk.dom\t3\td10\t9\t-\t-')          # same name, other length, sibling class
     return L
 
 
@@ -161,7 +163,7 @@ def run(res, proof):
         res.count('aliasing_checked')
     for l in hl[:8]:
         res.sample(l)
-    res.rule = ('populations: 11 domains, %d complexes (incl. pairs differing only in structure and copies in a subclass registry), %d '
+    res.rule = ('populations: 34 domains (incl. numbered / mixed names and other lengths in other registries), %d complexes (incl. pairs differing only in structure and copies in a subclass registry), %d '
                 'strands, %d macrostates, %d reactions (incl. triples differing only in type), all ordered pairs per kind (correspondence '
                 'with the model orders + coherence laws), all/sampled triples (transitivity), shuffles (sorted / set), every identity '
                 'attribute assigned, every handed-out view mutated; distinct by object pair' % (len(cx), len(strands), len(macros), len(rxns)))
